@@ -12,6 +12,23 @@ impl EcallTerminationPass {
             if node.is_program_exit() && !node.nexts().is_empty() {
                 for temp_node in node.nexts().clone() {
                     temp_node.remove_prev(&node);
+                    // What still reaches the successor is what its other
+                    // predecessors leave. An ecall that was also entered from
+                    // this exit, with another call number, may be a known
+                    // exit itself now; seeing that here, rather than after
+                    // one more value analysis of the whole graph per such
+                    // ecall, keeps the number of analyses independent of the
+                    // length of a chain of them.
+                    let still_arriving =
+                        temp_node.prevs().iter().map(|p| p.reg_values_out()).reduce(
+                            |mut acc, x| {
+                                acc &= &x;
+                                acc
+                            },
+                        );
+                    if let Some(values) = still_arriving {
+                        let _ = temp_node.set_reg_values_in(values);
+                    }
                 }
                 node.clear_nexts();
                 removed = true;
